@@ -171,8 +171,8 @@ TEXTS["C14"] = {
     "technique": "exhaustive enumeration of read splits around each size limit and of a stall-point x duration x time-out grid "
                  "under virtual time against a real gated Http::Endpoint",
     "level_text": "Every split of limit-1/limit/limit+1 sized requests into <=3 reads and every (time-out pair, stall point, "
-                  "stall duration, scan phase) combination is executed on the real endpoint; 413/handler and 408/200 "
-                  "outcomes must be exactly as the limits prescribe.",
+                  "stall duration, scan phase) combination - for the first to third (fourth) request of a connection - is executed on "
+                  "the real endpoint; 413/handler and 408/200 outcomes must be exactly as the limits prescribe.",
     "level_note": NOTE_B + "; time is virtual",
 }
 
